@@ -28,9 +28,9 @@ func init() {
 		ID:    "C11",
 		Level: "fault_enumeration",
 		Rule: "every valid stream (single files with 12/14-byte headers, with zero header CRC, 2- and 3-chains) x every cut offset 0..len x every fault offset (reader returns a non-EOF error from that offset on, alone or together with the preceding bytes of the same call) x six entry points x {whole-buffer, 1-byte} reads. " +
-			"Oracle: non-nil error unless the entry point's frame ends before the cut/fault or (cuts only) the cut is exactly on a member boundary of a chain after >=1 file; Files returned with the error hold exactly the messages of records complete before the offset (compared with decoding the re-framed prefix of complete records); complete chain members equal their stand-alone decode. " +
+			"Oracle: non-nil error unless the entry point's frame ends before the cut/fault or (cuts only) the cut is exactly on a member boundary of a chain after >=1 file; Files returned with the error hold exactly the messages of records complete before the offset (compared, per message type, with the first n messages of the uncut stream's decode, n = data records complete before the offset per the independent parser); complete chain members equal their stand-alone decode. " +
 			"distinct = distinct (stream, entry, kind, offset, read mode) cases",
-		Assumptions: []string{"record boundaries come from the reference builder that produced the streams"},
+		Assumptions: []string{"record boundaries come from the independent grammar parser; streams with messages in single-valued slots carry no partial-content demand"},
 		Run:         runC11,
 		Replay: func(raw json.RawMessage) (string, error) {
 			var r c11Replay
@@ -94,37 +94,74 @@ func c11Reader(data []byte, kind string, off int, oneByte bool) io.Reader {
 	}
 }
 
-// c11Partial returns the expected content of the File for member m when only
-// m[:avail] could be read: dump of the decode of the re-framed complete records
-// ("" if the file_id record is not complete: no content demand then).
-func c11Partial(m []byte, avail int) (string, bool) {
-	info, ok := memberInfos[string(m)]
-	if !ok {
-		return "", false
+// c11Partial returns what the File for member m must hold when only m[:avail] could be read: for every message
+// type, the messages of the data records that are complete before the offset (record boundaries from the
+// independent parser), taken from the decode of the *uncut* member. ok=false when the file_id record is incomplete
+// or the member holds messages in single-valued slots (no demand then).
+func c11Partial(m []byte, avail int) (map[uint16][]string, bool) {
+	p, _, err := fitmodel.ParseOne(m)
+	if err != nil || len(p.Recs) == 0 {
+		return nil, false
 	}
-	pos := int(m[0])
-	var complete [][]byte
-	for _, r := range info.Recs {
-		if pos+len(r) <= avail {
-			complete = append(complete, r)
-			pos += len(r)
-		} else {
+	full := safeDecode(bytes.NewReader(m))
+	if full.Err != nil || full.Panic != "" {
+		return nil, false
+	}
+	counts := map[uint16]int{}
+	for i, r := range p.Recs {
+		end := r.Offset + 1 + len(r.Payload)
+		if end > avail {
+			if i == 0 {
+				return nil, false // file_id record incomplete
+			}
 			break
 		}
+		counts[r.Def.Global]++
 	}
-	if len(complete) < 2 {
-		return "", false
+	out := map[uint16][]string{}
+	ft := byte(full.File.Type())
+	for _, sl := range hosts()[ft] {
+		if !sl.IsSlice {
+			if len(messagesOf(full.File, sl.Mesg)) > 0 {
+				return nil, false
+			}
+			continue
+		}
+		all := messagesOf(full.File, sl.Mesg)
+		n := counts[sl.Mesg]
+		if n > len(all) {
+			return nil, false
+		}
+		var ds []string
+		for _, v := range all[:n] {
+			ds = append(ds, fitmodel.Dump(v))
+		}
+		out[sl.Mesg] = ds
 	}
-	re := fitmodel.File(info.H, complete...)
-	res := safeDecode(bytes.NewReader(re))
-	if res.Err != nil || res.Panic != "" {
-		return "", false
+	return out, true
+}
+
+// c11PartialDiff compares the File returned with an error against the expectation.
+func c11PartialDiff(f *fit.File, want map[uint16][]string) string {
+	if f == nil {
+		return "no File returned although the header and the file_id record were complete"
 	}
-	return dumpFileContent(res.File), true
+	for m, ds := range want {
+		got := messagesOf(f, m)
+		if len(got) != len(ds) {
+			return fmt.Sprintf("%v: File holds %d message(s), %d records were complete before the offset", fit.MesgNum(m), len(got), len(ds))
+		}
+		for i := range got {
+			if fitmodel.Dump(got[i]) != ds[i] {
+				return fmt.Sprintf("%v #%d differs from the message decoded from the uncut stream", fit.MesgNum(m), i)
+			}
+		}
+	}
+	return ""
 }
 
 func runC11(w *vx.W) {
-	streams := []namedStream{sMin12, sMin14, sMin14z, sAct3, sAct3BE, sSet, sChain2, sChain2b, sChain3}
+	streams := []namedStream{sMin12, sMin14, sMin14z, sAct3, sAct3BE, sSet, sZero, sMonState, sChain2, sChain2b, sChain3, sChainZero, sChainState}
 	if !w.Quick() {
 		streams = append(streams, sBig, sChainBig)
 	}
@@ -222,8 +259,8 @@ func runC11(w *vx.W) {
 								continue
 							}
 							if want, ok := c11Partial(first, off); ok {
-								if got := dumpFileContent(res.File); got != want {
-									w.Violation("partial-content/"+e, where+": File returned with the error does not hold exactly the complete records: got "+trunc(got, 200)+" want "+trunc(want, 200), rep)
+								if d := c11PartialDiff(res.File, want); d != "" {
+									w.Violation("partial-content/"+e, where+": File returned with the error does not hold exactly the complete records: "+d, rep)
 								}
 								w.Fam("partial-content-compared", 1)
 							}
@@ -261,8 +298,8 @@ func runC11(w *vx.W) {
 							}
 							if wantFiles > nComplete {
 								if want, ok := c11Partial(m, rel); ok {
-									if got := dumpFileContent(res.Files[nComplete]); got != want {
-										w.Violation("partial-content/"+e, where+": partial last File does not hold exactly the complete records", rep)
+									if d := c11PartialDiff(res.Files[nComplete], want); d != "" {
+										w.Violation("partial-content/"+e, where+": partial last File does not hold exactly the complete records: "+d, rep)
 									}
 									w.Fam("partial-content-compared", 1)
 								}
